@@ -97,4 +97,102 @@ theorem restore_ignores_stale_state (F : FloatOps α) (mb : MbLen) (g : G) (t : 
 /-- ... nor does any entry point of the save -/
 theorem save_ignores_stale_state (F : FloatOps α) (g : G) (v : Value α) : saveSizeG F g v = saveSize F 0 v := rfl
 
+/-! ## the size table and its capacity (`save_svalue_sizes`, `save_max_depth`)
+
+restore_internal_size, in front of `save_svalue_sizes[depth] = size`:
+
+    if (!save_svalue_sizes) { save_max_depth = 128; while (save_max_depth <= depth) save_max_depth <<= 1; CALLOCATE .. }
+    else if (depth >= save_max_depth) { while ((save_max_depth <<= 1) <= depth); RESIZE .. }
+
+and restore_svalue / safe_restore_svalue after a restore that opened a nested container:
+`save_svalue_depth = save_max_depth = 0; FREE (save_svalue_sizes); save_svalue_sizes = 0;`.
+The second loop doubles BEFORE it tests: from a capacity of 0 it never ends.  The invariant that keeps it from that state:
+an allocated table has a capacity > 0 (`TabInv`) — kept by both blocks, and by an `error()` in between (nothing is
+touched on that way). -/
+
+/-- `alloc` = `save_svalue_sizes != NULL`, `cap` = `save_max_depth` -/
+structure Tab where
+  alloc : Bool
+  cap : Nat
+  deriving Repr, DecidableEq
+
+def TabInv (t : Tab) : Prop := t.alloc = true → 0 < t.cap
+
+/-- `while (cap <= depth) cap <<= 1;` (`none`: not finished within the fuel) -/
+def initCap (depth : Nat) : Nat → Nat → Option Nat
+  | fuel, cap =>
+    if cap ≤ depth then
+      match fuel with
+      | 0 => none
+      | f + 1 => initCap depth f (cap * 2)
+    else some cap
+
+/-- `while ((cap <<= 1) <= depth);` -/
+def growCap (depth : Nat) : Nat → Nat → Option Nat
+  | 0, _ => none
+  | f + 1, cap => if cap * 2 ≤ depth then growCap depth f (cap * 2) else some (cap * 2)
+
+/-- the allocation / growth in front of the write of entry `depth` -/
+def ensure (t : Tab) (depth fuel : Nat) : Option Tab :=
+  if t.alloc = false then (initCap depth fuel NV.Gen.C16.sizeTableInitial).map (fun c => ⟨true, c⟩)
+  else if depth ≥ t.cap then (growCap depth fuel t.cap).map (fun c => ⟨true, c⟩)
+  else some t
+
+/-- the release after a restore -/
+def release : Tab := ⟨false, 0⟩
+
+theorem initCap_ok (depth : Nat) : ∀ (fuel cap : Nat), 0 < cap → depth < cap * 2 ^ fuel →
+    ∃ c, initCap depth fuel cap = some c ∧ depth < c := by
+  intro fuel
+  induction fuel with
+  | zero =>
+    intro cap _ h
+    rw [initCap]
+    have : ¬ cap ≤ depth := by simp at h; omega
+    simp [this]; omega
+  | succ f ih =>
+    intro cap hc h
+    rw [initCap]
+    by_cases hle : cap ≤ depth
+    · simp only [hle, if_true]
+      exact ih (cap * 2) (by omega) (by rw [Nat.pow_succ] at h; rw [Nat.mul_assoc, Nat.mul_comm 2]; exact h)
+    · simp [hle]; omega
+
+theorem growCap_ok (depth : Nat) : ∀ (fuel cap : Nat), 0 < cap → depth < cap * 2 ^ fuel → cap ≤ depth →
+    ∃ c, growCap depth fuel cap = some c ∧ depth < c := by
+  intro fuel
+  induction fuel with
+  | zero => intro cap _ h hle; simp at h; omega
+  | succ f ih =>
+    intro cap hc h hle
+    rw [growCap]
+    by_cases h2 : cap * 2 ≤ depth
+    · simp only [h2, if_true]
+      exact ih (cap * 2) (by omega) (by rw [Nat.pow_succ] at h; rw [Nat.mul_assoc, Nat.mul_comm 2]; exact h) h2
+    · simp [h2]; omega
+
+/-- **The capacity loops end and make room**, from every state an earlier restore — finished, failed or interrupted by an
+    LPC error — can have left (`TabInv`), for every index -/
+theorem ensure_ok (t : Tab) (depth : Nat) (hi : TabInv t) :
+    ∃ t', ensure t depth (depth + 1) = some t' ∧ t'.alloc = true ∧ depth < t'.cap ∧ TabInv t' := by
+  have hpow : depth < 2 ^ (depth + 1) := Nat.lt_of_lt_of_le Nat.lt_two_pow_self (Nat.pow_le_pow_right (by omega) (by omega))
+  unfold ensure
+  by_cases ha : t.alloc = false
+  · simp only [ha, if_true]
+    have h0 : 0 < NV.Gen.C16.sizeTableInitial := by decide
+    obtain ⟨c, hc, hlt⟩ := initCap_ok depth (depth + 1) _ h0
+      (Nat.lt_of_lt_of_le hpow (Nat.le_mul_of_pos_left _ h0))
+    exact ⟨⟨true, c⟩, by simp [hc], rfl, hlt, fun _ => by show 0 < c; omega⟩
+  · have ha' : t.alloc = true := by simpa using ha
+    simp only [ha, if_false]
+    by_cases hge : depth ≥ t.cap
+    · simp only [hge, if_true]
+      obtain ⟨c, hc, hlt⟩ := growCap_ok depth (depth + 1) t.cap (hi ha')
+        (Nat.lt_of_lt_of_le hpow (Nat.le_mul_of_pos_left _ (hi ha'))) hge
+      exact ⟨⟨true, c⟩, by simp [hc], rfl, hlt, fun _ => by show 0 < c; omega⟩
+    · simp only [hge, if_false]
+      exact ⟨t, rfl, ha', by omega, hi⟩
+
+theorem release_inv : TabInv release := by intro h; cases h
+
 end NV.C16
